@@ -227,6 +227,19 @@ def fixed_noise_vector(seed, batch, n):
     return 0.05 + 0.3 * rand(seed + 77, *batch, n)
 
 
+def with_nans(y, recipe, seed):
+    """Missing observations (recipe["nan_rate"]): NaN targets, at least one observed entry per batch element."""
+    rate = recipe.get("nan_rate")
+    if not rate:
+        return y
+    y = y.clone()
+    miss = torch.rand(y.shape, generator=gen(seed + 41)) < rate
+    flat = miss.reshape(*miss.shape[: len(recipe.get("batch", []))], -1) if recipe.get("batch") else miss.reshape(1, -1)
+    flat[..., 0] = False
+    y[miss] = float("nan")
+    return y
+
+
 def build_exact(recipe, data=None, variant=0):
     """recipe -> model (training mode, float64).  `data` overrides the recipe's training data:
     dict(inputs=tuple, targets=tensor, fixed_noise=tensor|None)."""
@@ -252,6 +265,7 @@ def build_exact(recipe, data=None, variant=0):
             inputs = (x,)
             y = make_targets(ds, x)
         fixed = fixed_noise_vector(ds, batch, x.shape[-2]) if recipe["lik"].startswith("fixed") else None
+        y = with_nans(y, recipe, ds)
     else:
         inputs, y, fixed = data["inputs"], data["targets"], data.get("fixed_noise")
     # ---- likelihood
